@@ -248,7 +248,12 @@ def _compare(exp, got, case):
         diff('read_pattern first group=%d' % g, want, e,
              [e['kind'], e['text'] if e['kind'] == 'str' else e['words']])
     for (idx, g), e in got['all'].items():
+        n = len(mism)
         diff('read_pattern all group=%d' % g, ['list', exp['all'][g]], e, [e['kind'], e['words']])
+        for m in mism[n:]:                        # tags of the known shape X06-F1 (the words TLC declared for group 0)
+            m['tags'] = {'call': 'read_pattern', 'group': g, 'immediately': False,
+                         'shape': 'group_zero' if (g >= 1 and not e['raised'] and [e['kind'], e['words']] == ['list', exp['all'][0]])
+                         else 'other'}
     return mism
 
 
@@ -583,7 +588,7 @@ def run(ctx):
         if nontriv:
             ctx.nontrivial(json.dumps(case.get('kinds') or case.get('sig') or case['cid']))
         for m in mism:
-            ctx.violation(m['kind'], _slim(case), tags=dict(case_tags(case), what=m['what'].split(' ')[0]), detail=m)
+            ctx.violation(m['kind'], _slim(case), tags=dict(case_tags(case), what=m['what'].split(' ')[0], **m.pop('tags', {})), detail=m)
         if case.get('perline'):             # (S->C) get_vib_wavenumber_from_line per alphabet line
             calls = {uncodes(e['c']): e for e in events if e['ev'] == 'linecall'}
             for text, what, v in case['perline']:
@@ -628,7 +633,10 @@ def run(ctx):
                     e[k] = uncodes(e[k])
             if 'words' in e:
                 e['words'] = [uncodes(w) for w in e['words']]
-            ctx.violation(clause, _slim(case), tags=case_tags(case, evs[i]), detail={'event': i, 'call': e})
+            tags = case_tags(case, evs[i])
+            if clause == 'PatternWords_KnownGroupZero':
+                tags['shape'] = 'group_zero'
+            ctx.violation(clause, _slim(case), tags=tags, detail={'event': i, 'call': e})
     ctx.assume('numbers are compared as 9-digit decimals; a printed value with more than nine significant digits '
                'is compared to one unit in the ninth digit')
     ctx.assume('unit factors of the Gaussian readers are taken from pmutt.constants.convert_unit (subject of C12); '
